@@ -18,6 +18,8 @@ import (
 	"os"
 	"path/filepath"
 	"strings"
+	"sync"
+	"sync/atomic"
 	"time"
 
 	"github.com/oauth2-proxy/oauth2-proxy/v7/pkg/apis/sessions"
@@ -284,7 +286,7 @@ func init() {
 		azValidatorReload(c)
 		azE2E(c)
 		azDeployments(c)
-		c.close([]string{"az:behind-proxy", "az:refused-while-deletes-fail", "iv:true", "iv:false", "va:true", "va:false", "va:reload", "va:emptied-file", "gr:true", "gr:false", "ao:true", "ao:false", "ao:nil-session",
+		c.close([]string{"az:behind-proxy", "az:refused-while-deletes-fail", "az:refreshed-elsewhere", "az:refresh-grows-and-fails", "va:reload-under-traffic", "iv:true", "iv:false", "va:true", "va:false", "va:reload", "va:emptied-file", "gr:true", "gr:false", "ao:true", "ao:false", "ao:nil-session",
 			"ao:domain-check-pass", "ao:domain-check-fail", "login:session", "login:forbidden", "gate:ok", "gate:denied", "gate:login", "gate:bypass",
 			"history:file-rewrite-denied", "history:second-proxy-denied", "history:second-proxy-ok", "authonly:202", "authonly:403", "authonly:401",
 			"htpasswd:exempt-served", "htpasswd:groups-denied", "monitor:served-allowed", "monitor:refused-cleared"})
@@ -604,6 +606,47 @@ func azValidatorReload(c *suiteCtx) {
 					c.violation("C08", "an e-mail removed from the authenticated-emails file (file emptied) is still accepted after the reload", map[string]interface{}{"email": e, "file_content": content})
 				}
 			}
+		}
+		close(w.done)
+	}
+	// a LARGE authenticated-emails file is replaced while requests for the address it removes keep arriving: once the new list
+	// is in force (the address it adds is accepted) the removed one is refused — nothing decided during the reload outlives it
+	for round := 0; round < 2; round++ {
+		file := filepath.Join(dir, fmt.Sprintf("emails-large-%d", round))
+		var sb strings.Builder
+		for k := 0; k < 150000; k++ {
+			fmt.Fprintf(&sb, "user%06d@bulk.test\n", k)
+		}
+		bulk := sb.String()
+		writeAtomic(file, bulk+"leaver@probe.test\n")
+		w := newWatchedValidator([]string{"example.org"}, file)
+		if !w.validate("leaver@probe.test") {
+			c.violation("HARNESS", "large authenticated-emails file not loaded", nil)
+			close(w.done)
+			continue
+		}
+		var stop int32
+		var wg sync.WaitGroup
+		for g := 0; g < 4; g++ {
+			wg.Add(1)
+			go func() {
+				defer wg.Done()
+				for atomic.LoadInt32(&stop) == 0 {
+					w.validate("leaver@probe.test")
+					w.validate("Leaver@Probe.test")
+				}
+			}()
+		}
+		time.Sleep(30 * time.Millisecond)
+		writeAtomic(file, bulk+"joiner@probe.test\n")
+		ok := w.waitFor("joiner@probe.test", "leaver@probe.test")
+		atomic.StoreInt32(&stop, 1)
+		wg.Wait()
+		c.casen(fmt.Sprintf("va|reload-under-traffic|%d", round), fmt.Sprint(ok))
+		c.count("va:reload-under-traffic")
+		if !ok {
+			c.violation("C08", "a large authenticated-emails file was replaced (atomic rename) while validations of the address it removes kept arriving: 20 s later the added address is accepted="+fmt.Sprint(w.validate("joiner@probe.test"))+" and the REMOVED address is still accepted="+fmt.Sprint(w.validate("leaver@probe.test")),
+				map[string]interface{}{"file_lines": 150001, "concurrent_validations_of_the_removed_address": 4})
 		}
 		close(w.done)
 	}
@@ -1036,6 +1079,92 @@ func azDeployments(c *suiteCtx) {
 	} else {
 		c.violation("HARNESS", "env: "+err.Error(), nil)
 	}
+	// several instances (server-side store): while this request waited for the refresh lock ANOTHER instance refreshed the session,
+	// and the refresh changed who the user is (groups, address).  The request goes on with the session it re-read — all of it:
+	// the rules are judged on the re-read groups / address, never on the copy read before the wait
+	if e, err := newEnv(c, proxyCfg{Redis: true, CookieRefresh: time.Second, AllowedGroups: []string{"dev"}, InjectRequest: defaultInject()}); err == nil {
+		rec := e.instrument()
+		for i, target := range []string{"/app/x", "/oauth2/auth", "/oauth2/userinfo", "/app/y"} {
+			old := e.sessionFor(u, 2*time.Hour) // (groups dev, ops: allowed) — due for refresh
+			old.RefreshToken = fmt.Sprintf("rt-az-w-%d-%d", i, time.Now().UnixNano())
+			e.registerRT(old.RefreshToken, u)
+			ck := e.issueSessionCookie(old)
+			other := e.sessionFor(u, 0) // what the other instance's refresh stored under the same ticket
+			other.AccessToken, other.RefreshToken = "at-by-other-instance", "rt-by-other-instance"
+			allowedAfter := i == 3
+			if allowedAfter {
+				other.Groups = []string{"dev", "night-shift"}
+				other.Email = "alice.renamed@example.com"
+			} else {
+				other.Groups = []string{"contractors"}
+			}
+			rec.reset(&faultPlan{hooks: map[string]func(){"load#2": func() {
+				e.proxy.sessionStore.(*recStore).inner.Save(&respRecorder{h: http.Header{}}, mustReq(e, ck), other)
+			}}})
+			v := e.do(reqSpec{Target: target, Cookie: ck})
+			reread := len(rec.byOp("load")) >= 2
+			rec.reset(nil)
+			c.casen(fmt.Sprintf("az|refreshed-by-another-instance|%s|%v", target, allowedAfter), fmt.Sprint(v.Status))
+			if !reread {
+				c.count("az:refreshed-elsewhere-not-reached")
+				continue
+			}
+			c.count("az:refreshed-elsewhere")
+			in := map[string]interface{}{"target": target, "status": v.Status, "allowed_groups": []string{"dev"}, "groups_read_before_the_wait": old.Groups, "groups_re_read_under_the_lock": other.Groups}
+			servedNow := len(v.Hits) > 0 || v.Status == 200 || v.Status == 202
+			if !allowedAfter && servedNow {
+				c.violation("C08", "another instance refreshed the session while this request waited for the refresh lock, and the refreshed session no longer satisfies allowed-groups: the request was served on the groups it had read BEFORE the wait", in)
+			}
+			if allowedAfter {
+				if !servedNow {
+					c.violation("C08", "another instance refreshed the session while this request waited for the refresh lock; the re-read session satisfies the rules but the request was refused", in)
+				}
+				for _, h := range v.Hits {
+					if got := h.Header.Get("X-Forwarded-Email"); got != other.Email {
+						c.violation("C08", "the request went on with a MIX of two sessions: tokens of the re-read session, identity of the copy read before the wait", map[string]interface{}{"x_forwarded_email": got, "re_read_email": other.Email, "x_forwarded_access_token": h.Header.Get("X-Forwarded-Access-Token")})
+					}
+				}
+			}
+			e.mr.FlushAll()
+		}
+		e.close()
+	} else {
+		c.violation("HARNESS", "env: "+err.Error(), nil)
+	}
+	// cookie store: ONE request in which the refresh both makes the session fail the rules and makes it outgrow a single cookie
+	// (the provider now reports many groups, none of them allowed).  The refusal must leave the browser without a usable session
+	if e, err := newEnv(c, proxyCfg{CookieRefresh: time.Second, AllowedGroups: []string{"dev"}, InjectRequest: defaultInject()}); err == nil {
+		for _, target := range []string{"/app/x", "/oauth2/auth"} {
+			old := e.sessionFor(u, 2*time.Hour)
+			old.RefreshToken = fmt.Sprintf("rt-az-g-%d", time.Now().UnixNano())
+			big := u
+			var gs []interface{}
+			for k := 0; k < 260; k++ {
+				gs = append(gs, fmt.Sprintf("cn=project-%04d-contractors,ou=groups,dc=example,dc=com", k*7919%10007))
+			}
+			big.Groups = gs
+			e.registerRT(old.RefreshToken, big)
+			b := newBrowser()
+			b.jarFromHeader(e.issueSessionCookie(old))
+			single := len(b.jar) == 1
+			v := e.do(reqSpec{Target: target, Cookie: b.cookieHeader()})
+			if v.raw != nil {
+				b.apply(v.raw)
+			}
+			r2 := e.do(reqSpec{Target: "/app/again", Cookie: b.cookieHeader()})
+			c.casen("az|refresh-grows-and-fails|"+target, fmt.Sprintf("%d/%d", v.Status, r2.Status))
+			c.count("az:refresh-grows-and-fails")
+			in := map[string]interface{}{"target": target, "status": v.Status, "session_was_one_cookie": single, "groups_after_refresh": 260, "set_cookie_names": setCookieNames(v), "replay_status": r2.Status}
+			if len(v.Hits) > 0 || v.Status == 200 || v.Status == 202 {
+				c.violation("C08", "a session whose refresh (in this very request) left it outside allowed-groups was served", in)
+			} else if len(r2.Hits) > 0 {
+				c.violation("C08", "a request whose refresh left the session outside allowed-groups was refused, but the response leaves the browser with a complete, valid session (the refreshed session's cookie parts were set and not taken back): the next request is served", in)
+			}
+		}
+		e.close()
+	} else {
+		c.violation("HARNESS", "env: "+err.Error(), nil)
+	}
 	if e, err := newEnv(c, proxyCfg{Redis: true, AllowedGroups: []string{"admins"}, InjectRequest: defaultInject()}); err == nil {
 		for _, target := range []string{"/app/x", "/oauth2/auth", "/oauth2/userinfo"} {
 			ck := e.issueSessionCookie(e.sessionFor(u, time.Minute)) // a valid session whose groups no longer satisfy the rule
@@ -1062,4 +1191,12 @@ func azDeployments(c *suiteCtx) {
 	} else {
 		c.violation("HARNESS", "env: "+err.Error(), nil)
 	}
+}
+
+func setCookieNames(v *respView) []string {
+	var out []string
+	for _, ck := range v.Cookies {
+		out = append(out, fmt.Sprintf("%s(max-age %d, %d bytes)", ck.Name, ck.MaxAge, len(ck.Value)))
+	}
+	return out
 }
